@@ -80,5 +80,5 @@ func C01(c *core.Ctx) {
 	// identifiers: what Identifierize makes of every class of text is a valid Go identifier (shared with C14)
 	ruleIdent(c)
 	// several files: the emitted packages compile together (no self-import, no unused or missing import, no duplicate declaration)
-	ruleMultiSel(c, ruleSet("A-TYP", "A-XPKG"), 6, "reference across two packages", "reference between two files of one package", "reference within the single default output", "two files with the same base name", "titled roots")
+	ruleMultiSel(c, ruleSet("A-TYP", "A-XPKG"), 7, "reference across two packages", "a definition with a cross-package property", "reference between two files of one package", "reference within the single default output", "two files with the same base name", "titled roots")
 }
